@@ -82,6 +82,16 @@ def run(ctx: Ctx, env):
         kw = ks[0].lower() if ks else r.name.lower()
         ctx.check(problem is None, "R1.whitespace-runs-interchangeable", r.name, f"token {r.name}: {problem}", gm.loc(r.func) if r.func else gm.rel,
                   f"a\t{ {'Add': 'add', 'And': 'and', 'Eq': 'eq'}.get(ks[0], 'eq') if ks else 'eq'}\n 1  (tab/newline/double space as separators)")
+    # a rule's trailing look-ahead must not tell whitespace characters apart either
+    for r in g.rules:
+        rule = rx.compile_rule(r.pattern, g.reflags, alpha)
+        for vd, vlook in rule.variants:
+            if vlook.allowed is None:
+                continue
+            inside = [c for c in ws if c in vlook.allowed]
+            ctx.check(len(inside) in (0, len(ws)), "R1.lookahead-whitespace-uniform", r.name,
+                      f"the look-ahead of {r.name} accepts some whitespace characters ({[alpha.rep[c] for c in inside]}) but not others: the token is "
+                      "recognised before a space and not before a tab/newline", gm.loc(r.func) if r.func else gm.rel, "x eq null\tor y eq 1")
     ctx.floor("whitespace-bearing rules", n_ws, 15)
 
     # ---- R2 case flag ----------------------------------------------------------------------------------------------------
@@ -155,6 +165,28 @@ def run(ctx: Ctx, env):
                     ctx.check(any(f"|{t}" in k for t in CASE_TRANSFORMS), "R4.consumer-case-insensitive", f"ast.{kind}.py_val",
                               f"{kind}.py_val compares the raw text case-sensitively (`{k}`): {CASE_VARIANT_KINDS[kind]} can be written in either case",
                               pci.module.loc(fn), {"Boolean": "flag eq TRUE", "DateTime": "d eq 2020-01-01t10:00:00z", "Float": "x eq 1E3"}[kind])
+    # (a2) the conversion function applied to the raw text must itself be case-insensitive for this kind
+    INSENSITIVE = {"isoparse", "parse", "float", "int", "UUID", "Decimal"}
+    SENSITIVE = {("DateTime", "fromisoformat"): "datetime.fromisoformat accepts only an upper-case Z (and, before 3.11, only upper-case T)",
+                 ("DateTime", "strptime"): "strptime formats match letters case-sensitively"}
+    for kind in kinds:
+        ci = env.repo.classes.get("odata_query.ast." + kind)
+        r = env.repo.lookup_method(ci.qual, "py_val") if ci else None
+        if r is None:
+            continue
+        pci, fn = r
+        for n in ast.walk(fn):
+            if isinstance(n, ast.Call) and n.args and ast.unparse(n.args[0]) in ("self.val",):
+                callee = n.func.attr if isinstance(n.func, ast.Attribute) else (n.func.id if isinstance(n.func, ast.Name) else "?")
+                n_cons += 1
+                if callee in INSENSITIVE:
+                    ctx.ok("R4.consumer-case-insensitive", f"ast.{kind}.py_val|{callee}", "case-insensitive conversion (trusted)")
+                elif (kind, callee) in SENSITIVE:
+                    ctx.fail("R4.consumer-case-insensitive", f"ast.{kind}.py_val|{callee}", f"{kind}.py_val hands the raw text to {callee}(): "
+                             f"{SENSITIVE[(kind, callee)]}, but the lexer also accepts the lower-case spelling", pci.module.loc(n),
+                             "d eq 2020-06-01T00:00:00z")
+                else:
+                    raise AnalysisError(f"{kind}.py_val converts the raw text with {callee}(), whose case behaviour is unknown to the oracle", pci.module.loc(n))
     # (b) back ends
     for vcls in H.visitors():
         vs = H.short(vcls)
